@@ -511,4 +511,47 @@ Proof.
     { intros ->. apply Nk. eapply NoDup_nth_error; [exact ND | | congruence]. apply nth_error_Some. congruence. }
     rewrite rd_upd_other by exact No. apply (R1 k o sp Ek Esp).
 Qed.
+
+(* ================= Broadcast / Reduction / Diagonal are ProductSpaceOperators ================= *)
+(* pair the k-th operator with its denotation: Forall2-style list of (tree, dom, ran, F) *)
+Definition optup := (@op VR * space * space * (list R -> list R))%type.
+Definition op_ok (ro : ro_t) (t : optup) : Prop :=
+  let '(o, d, r, F) := t in den ro o d r [] F.
+
+Lemma number_from_nth {A} (l : list A) : forall k i a,
+  nth_error (number_from k l) i = Some a -> exists b, a = ((k + i)%nat, b) /\ nth_error l i = Some b.
+Proof.
+  induction l as [|x l IH]; intros k [|i] a E; cbn in E; try discriminate.
+  - injection E as <-. exists x. split; [f_equal; lia | reflexivity].
+  - destruct (IH (S k) i a E) as (b & -> & Eb). exists b. split; [f_equal; lia | exact Eb].
+Qed.
+
+(* BroadcastOperator(op_0, ..., op_{n-1}) with op_i : dom -> ran_i *)
+Lemma broadcast_ent_ok ro dom (ts : list optup) :
+  Forall (op_ok ro) ts -> Forall (fun t => snd (fst (fst t)) = dom) ts ->
+  Forall (ent_ok ro [dom] (map (fun t => snd (fst t)) ts))
+    (map (fun p => ({| en_row := fst p; en_col := 0; en_op := fst (fst (fst (snd p))) |}, snd (snd p)))
+         (number_from 0 ts)).
+Proof.
+  intros Hok Hdom. apply Forall_forall. intros q Iq. apply in_map_iff in Iq as ([k t] & <- & Ik).
+  apply In_nth_error in Ik as (i & Ei). destruct (number_from_nth ts 0 i _ Ei) as (b & Q & Eb).
+  injection Q as -> ->. cbn [fst snd].
+  pose proof (proj1 (Forall_forall _ _) Hok b (nth_error_In _ _ Eb)) as Hb.
+  pose proof (proj1 (Forall_forall _ _) Hdom b (nth_error_In _ _ Eb)) as Hd.
+  destruct b as [[[o d] r] F]. cbn in *. subst d.
+  exists dom, r. splits; [reflexivity | | exact Hb].
+  exact (map_nth_error (fun t : optup => snd (fst t)) i ts Eb).
+Qed.
+
+Definition bsent (ts : list optup) : list sent :=
+  map (fun p => ({| en_row := fst p; en_col := 0; en_op := fst (fst (fst (snd p))) |}, snd (snd p)))
+      (number_from 0 ts).
+Lemma number_from_map {A B} (f : A -> B) (l : list A) : forall k,
+  number_from k (map f l) = map (fun p => (fst p, f (snd p))) (number_from k l).
+Proof. induction l as [|a l IH]; intros k; cbn; [reflexivity|]. rewrite IH. reflexivity. Qed.
+Lemma bsent_entries (ts : list optup) :
+  map fst (bsent ts) = broadcast_entries (map (fun t => fst (fst (fst t))) ts).
+Proof.
+  unfold bsent, broadcast_entries. rewrite number_from_map, !map_map. apply map_ext. intros [k t]. reflexivity.
+Qed.
 End PProofs.
